@@ -54,6 +54,7 @@ int32_t getEcPubKey(psPool_t *pool, const unsigned char **pp, psSize_t len,
     int32_t oid;
     psSize_t arcLen;
     uint8_t ignore_bits;
+    int32_t rc;
 
     end = p + len;
     if (len < 1 ||
@@ -120,10 +121,10 @@ int32_t getEcPubKey(psPool_t *pool, const unsigned char **pp, psSize_t len,
 # endif
 
     /* Note arcLen could again be zero here */
-    if (psEccX963ImportKey(pool, p, arcLen, pubKey, eccCurve) < 0)
+    if ((rc = psEccX963ImportKey(pool, p, arcLen, pubKey, eccCurve)) < 0)
     {
         psTraceCrypto("Unable to parse ECC pubkey from cert\n");
-        return PS_PARSE_FAIL;
+        return (rc == PS_MEM_FAIL) ? PS_MEM_FAIL : PS_PARSE_FAIL;
     }
     p += arcLen;
 
